@@ -10,6 +10,7 @@
 (* stream that violates one is reported with the rule's name.              *)
 (*   cow              page write to ln/bbn before the switch-over only to a *)
 (*                    page that is free or beyond the bump in the pre-image *)
+(*                    (or with exactly the bytes the page already holds)    *)
 (*   ht-after-meta    no hash-table write before the meta page is durable  *)
 (*   wal-before-meta / cow-before-meta / seg-before-meta                   *)
 (*                    when the meta page is written, wal, ln, bbn and the   *)
@@ -59,6 +60,9 @@ BeginViolations(e) ==
         CASE r = "cow" ->
                  /\ ~IsRecovery /\ e.k = "submit" /\ f \in {"ln", "bbn"} /\ ~metaD
                  /\ ~Unreferenced(f, e.off)
+                 \* writing back exactly the bytes the page holds in the pre-image does not modify the old image
+                 \* (the free-list writer re-emits an untouched full page of the list): the recorder marks such writes
+                 /\ ~("same" \in DOMAIN e /\ e.same)
           [] r = "ht-after-meta" ->
                  /\ ~IsRecovery /\ f = "ht" /\ IsWriteKind(e.k) /\ ~metaD
           [] r = "wal-before-meta" ->
